@@ -386,6 +386,24 @@ def run(ctx):
                 ctx.sample({'request': lines[-1][:400], 'answer': ans[:400]})
     model = common.LeanDriver('Frame').run(lines)
     ctx.compare('frame parser (MessageExchanger vs MpycV.Frame)', impl, model, lines)
+    second_session(ctx)
+
+
+def second_session(ctx):
+    """the handshake of a SECOND session on the same Runtime objects, after mpc.threshold was re-assigned (other key packet
+    layout): must be parsed with the current layout, the following frames must be delivered (real m-party runs in the
+    simulator under adversarial chunking; machinery shared with C11)"""
+    from props import c11
+    rng = ctx.subrng('second-session')
+    ctx._max_lines = 0
+    for (m, t1, t2) in [(3, 1, 0), (4, 0, 1)] + ([(5, 2, 1), (5, 1, 2), (3, 0, 1)] if ctx.thorough else []):
+        seed = rng.randrange(10**9)
+        msg = c11.two_sessions(ctx, 'arith', m, t1, t2, seed, [], [], [])
+        ctx.count('second-session-after-threshold-change')
+        if msg:
+            ctx.violation('framing: second session after a threshold change: ' + msg,
+                          {'kind': 'two-sessions', 'program': 'arith', 'm': m, 't': t1, 't2': t2, 'seed': seed})
+            return
 
 
 def search(ctx):
@@ -407,6 +425,11 @@ def search(ctx):
 
 
 def replay(ctx, data):
+    if data.get('kind') == 'two-sessions':
+        from props import c11
+        ctx._max_lines = 0
+        msg = c11.two_sessions(ctx, data['program'], data['m'], data['t'], data['t2'], data['seed'], [], [], [])
+        return msg is None, msg or 'ok'
     ops = data['ops']
     ans = run_impl(data['role'], data['no_prss'], data['ka'], data['kb'], ops)
     msgs = None
